@@ -788,7 +788,10 @@ func (e *Env) call(x *spec.Call) TV {
 		if a.Sort == "Slice" {
 			t = fmt.Sprintf("(s.base %s)", a.T)
 		}
-		return TV{fmt.Sprintf("(> %s %s)", t, g.top(e.old)), "Bool", nil}
+		return TV{fmt.Sprintf("(> (oroot %s) %s)", t, g.top(e.old)), "Bool", nil}
+	case "fld":
+		a, k := e.eval(x.Args[0]), e.eval(x.Args[1])
+		return TV{fmt.Sprintf("(fld %s %s)", a.T, k.T), "Int", nil}
 	case "oldalloc":
 		// oldalloc(o): reference o was already allocated in the old state
 		a := e.eval(x.Args[0])
@@ -796,14 +799,14 @@ func (e *Env) call(x *spec.Call) TV {
 		if a.Sort == "Slice" {
 			t = fmt.Sprintf("(s.base %s)", a.T)
 		}
-		return TV{fmt.Sprintf("(<= %s %s)", t, g.top(e.old)), "Bool", nil}
+		return TV{fmt.Sprintf("(<= (oroot %s) %s)", t, g.top(e.old)), "Bool", nil}
 	case "allocated":
 		a := e.eval(x.Args[0])
 		t := a.T
 		if a.Sort == "Slice" {
 			t = fmt.Sprintf("(s.base %s)", a.T)
 		}
-		return TV{fmt.Sprintf("(<= %s %s)", t, g.top(e.cur)), "Bool", nil}
+		return TV{fmt.Sprintf("(<= (oroot %s) %s)", t, g.top(e.cur)), "Bool", nil}
 	case "select":
 		a, i := e.materialize(e.eval(x.Args[0])), e.materialize(e.eval(x.Args[1]))
 		return TV{fmt.Sprintf("(select %s %s)", a.T, i.T), arrayElemSort(a.Sort), nil}
@@ -819,6 +822,23 @@ func (e *Env) call(x *spec.Call) TV {
 		if id, ok := x.Args[0].(*spec.Ident); ok {
 			if c := e.globalBytesConst(id.Name); c != "" {
 				return TV{c, "Bytes", nil}
+			}
+		}
+		if sel, ok := x.Args[0].(*spec.Sel); ok {
+			if id, ok := sel.X.(*spec.Ident); ok {
+				if _, bound := e.vars[id.Name]; !bound {
+					if p := g.prog.Pkgs[e.pkg]; p != nil {
+						for _, ip := range p.Imports {
+							if ip.Name == id.Name && ip.Types != nil {
+								if v, ok := ip.Types.Scope().Lookup(sel.Name).(*types.Var); ok {
+									if c := g.globalBytes(v.Pkg().Path(), v.Name(), v.Type()); c != "" {
+										return TV{c, "Bytes", nil}
+									}
+								}
+							}
+						}
+					}
+				}
 			}
 		}
 		a := e.eval(x.Args[0])
@@ -919,6 +939,9 @@ func (e *Env) call(x *spec.Call) TV {
 			n.vars[p.Name] = e.eval(x.Args[i])
 		}
 		n.callee = true
+		if sf.Pkg != "" {
+			n.pkg = sf.Pkg // package-level names in a macro body resolve where it was written
+		}
 		return n.eval(sf.Body)
 	}
 	var args []string
@@ -981,6 +1004,15 @@ func (g *Gen) globalBytes(pkg, name string, t types.Type) string {
 		return ""
 	}
 	c := "gb." + sanitize(pkg+"."+name)
+	if lit, ok := g.prog.globalInitString(pkg, name); ok {
+		// initial value known from the package initialiser: a concrete literal
+		arr := "((as const (Array Int Int)) 0)"
+		for i := 0; i < len(lit); i++ {
+			arr = fmt.Sprintf("(store %s %d %d)", arr, i, lit[i])
+		}
+		g.u.Extra(fmt.Sprintf("(define-fun %s () Bytes (mk.bytes %d %s))", c, len(lit), arr))
+		return c
+	}
 	g.u.Extra(fmt.Sprintf("(declare-const %s Bytes)", c))
 	return c
 }
